@@ -258,6 +258,12 @@ pub struct HBase {
 }
 
 pub fn hbases() -> Vec<HBase> {
+    let mut v = hbases_all();
+    v.truncate(3);
+    v
+}
+
+pub fn hbases_all() -> Vec<HBase> {
     let mut v = vec![];
     let chunks: Vec<Vec<u8>> = vec![b"AAAAAAAA".to_vec(), b"BBBBBB".to_vec(), b"CCCCCCCCCC".to_vec()];
     let order = [0usize, 1, 0, 2];
@@ -267,13 +273,15 @@ pub fn hbases() -> Vec<HBase> {
         source.extend_from_slice(&chunks[i]);
         cuts.push(source.len());
     }
-    for (name, algo, comp) in [("rollsum-none", 1u32, 0u32), ("buzhash-brotli", 0, 3), ("fixed-none", 2, 0)] {
+    // the last base stores its chunks with a gap after each: every chunk is a range request of its own, so a
+    // misbehaving response is FOLLOWED by further requests (state carried from one run of chunks to the next)
+    for (name, algo, comp) in [("rollsum-none", 1u32, 0u32), ("buzhash-brotli", 0, 3), ("fixed-none", 2, 0), ("rollsum-none-gapped", 1, 0)] {
         let params = codec::Params { chunk_filter_bits: 2, min_chunk_size: 4, max_chunk_size: 16, rolling_hash_window_size: 4, chunk_hash_length: 64, chunking_algorithm: algo };
         let recipe = codec::Recipe {
             enc: Default::default(),
             slack: 0,
             order: vec![],
-            gaps: vec![],
+            gaps: if name.ends_with("gapped") { vec![1, 1, 1] } else { vec![] },
             raw: vec![false; 3],
             force_compressed: vec![],
             hash_len: 64,
@@ -680,7 +688,7 @@ impl IsoCtx {
 // ------------------------------------------------------------------ servers
 
 fn server_leg(rep: &mut Report) {
-    let hb = hbases();
+    let hb = hbases_all();
     let a = par_shards(hb.len(), threads(), |bi| {
         let mut agg = Agg::default();
         let b = &hb[bi];
@@ -715,7 +723,7 @@ fn server_leg(rep: &mut Report) {
                         });
                     }
                     match &r {
-                        Err(p) => agg.viol(&panic_class(p), detail),
+                        Err(p) => agg.viol(&format!("server-response:{}", panic_class(p)), detail),
                         Ok(_) if t0.elapsed().as_secs() >= 9 => agg.viol("unbounded-work:server-response-stalls-clone", detail),
                         Ok(Ok(())) => agg.add("ended_in_success", 1),
                         Ok(Err(_)) => agg.add("ended_in_reported_error", 1),
